@@ -172,7 +172,7 @@ func cmdCheck(args []string) int {
 	intrinsics := map[string]bool{}
 	var samples []interface{}
 	tot := struct {
-		states, transitions, validated, feasQ, assertQ, assertSat, assertUnsat, assertUnknown, solverErrors, solverUnknown int
+		states, transitions, validated, feasQ, assertQ, assertSat, assertUnsat, assertUnknown, solverErrors, solverUnknown, solverFallbacks int
 		solverTime                                                                                                         time.Duration
 	}{}
 	writeEvidence := func(status string) {
@@ -199,7 +199,7 @@ func cmdCheck(args []string) int {
 				"queries": map[string]int{
 					"feasibility": tot.feasQ, "assertion": tot.assertQ, "assertion_sat": tot.assertSat,
 					"assertion_unsat": tot.assertUnsat, "assertion_unknown": tot.assertUnknown,
-					"solver_unknown": tot.solverUnknown, "solver_error_lines": tot.solverErrors,
+					"solver_unknown": tot.solverUnknown, "second_solver_queries": tot.solverFallbacks, "solver_error_lines": tot.solverErrors,
 				},
 				"solver_time_s":  tot.solverTime.Seconds(),
 				"solvers":        []string{"z3 4.8.12 (/usr/bin/z3 -in)"},
@@ -269,6 +269,7 @@ func cmdCheck(args []string) int {
 		tot.assertUnsat += rep.AssertUnsat
 		tot.assertUnknown += rep.AssertUnknown
 		tot.solverErrors += rep.Solver.Errors
+		tot.solverFallbacks += rep.Solver.Fallbacks
 		tot.solverUnknown += rep.Solver.Unknown
 		tot.solverTime += rep.Solver.Time
 		for _, m := range rep.Inconclusive {
